@@ -209,7 +209,7 @@ Qed.
 
 (* ------------------------------------------------------------------ the negative forms *)
 Lemma registered_live ops ph id r : registered ops ph id r -> validated_live ops ph id.
-Proof. intros (_ & H & _). exact H. Qed.
+Proof. intros (_ & H & _). exists (r_name r). exact H. Qed.
 
 Lemma top_never_min ops ph data :
   ~ validated_live ops ph (take min_tag_len data) ->
